@@ -1,5 +1,7 @@
 package rjson
 
+import "bytes"
+
 func unescapeStringContent(data []byte, dst []byte) ([]byte, int, error) {
   cs, p := 0, 0
   pe := len(data)
@@ -51,7 +53,12 @@ func appendRemainderOfString(data []byte, dst []byte) ([]byte, int, error) {
   pe := len(data)
   eof := len(data)
   var segStart int
-  dst = growBytesSliceCapacity(dst, len(dst) + len(data))
+  // the string ends at a double quote: reserve room up to the first one, not for the rest of the document
+  reserve := bytes.IndexByte(data, '"')
+  if reserve < 0 {
+    reserve = len(data)
+  }
+  dst = growBytesSliceCapacity(dst, len(dst) + reserve)
   var unescapeUnicodeCharBytes int
   var ok bool
 
